@@ -8,8 +8,8 @@ import struct
 import z3
 
 from pyvc import sym
-from pyvc.contract import Contract, Case, T, not_types
-from pyvc.dsl import conj, disj, neg, in_range, is_int
+from pyvc.contract import Contract, Case, T, TSpec, not_types
+from pyvc.dsl import conj, disj, neg, in_range, is_int, le, lt, eq
 from pyvc.sym import I, B, SBytes
 from spec import wire
 
@@ -93,7 +93,184 @@ def switch_contract():
                     modifies=['DEPRECATED_RABBITMQ_SUPPORT'])
 
 
+def simple_encoders():
+    """boolean, byte_array, double, floating_point, the two string encoders."""
+    from pyvc import lib
+    from pyvc.sym import SFloat, SStr, SBool
+    import z3 as _z3
+    out = []
+    is_bool = lambda v: isinstance(v, (bool, SBool))
+    out.append(Contract(ENC + '.boolean', [('value', T.any)], cases=[
+        Case('bool', when=lambda c: is_bool(c.value), returns=lambda c: wire.be(c.st, 1, c.value)),
+        Case('not-a-bool', when=lambda c: not is_bool(c.value), raises=TypeError)],
+        doc='C04: one octet 0/1; only bool accepted'))
+
+    is_ba = lambda v: isinstance(v, bytearray) or (isinstance(v, SBytes) and v.mutable)
+    fits32 = lambda c: wire.blen(c.st, c.value) < 2 ** 32 if isinstance(wire.blen(c.st, c.value), int) else I(wire.blen(c.st, c.value)) < 2 ** 32
+    out.append(Contract(ENC + '.byte_array', [('value', T.any)], cases=[
+        Case('bytearray', when=lambda c: is_ba(c.value) and fits32(c),
+             returns=lambda c: wire.cat(c.st, wire.be(c.st, 4, wire.blen(c.st, c.value)), c.value)),
+        Case('too-long', when=lambda c: is_ba(c.value) and neg(fits32(c)), raises=struct.error),
+        Case('not-a-bytearray', when=lambda c: not is_ba(c.value), raises=TypeError)],
+        doc='C04: 4-octet length + octets; only bytearray accepted'))
+
+    is_float = lambda v: isinstance(v, (float, SFloat))
+
+    def f64(c):
+        if isinstance(c.value, float):
+            return struct.pack('>d', c.value)
+        ch = c.st.new_chunk(term=lib.f64_bytes(c.value.t))
+        c.st.assume(_z3.And(ch.len == 8, lib.f64_of(ch.t) == c.value.t))
+        return SBytes([ch])
+
+    def f32(c):
+        if isinstance(c.value, float):
+            return struct.pack('>f', c.value)
+        ch = c.st.new_chunk(term=lib.f32_bytes(c.value.t))
+        c.st.assume(_z3.And(ch.len == 4, lib.f32_of(ch.t) == lib.round32(c.value.t)))
+        return SBytes([ch])
+
+    def fits_f32(c):
+        if isinstance(c.value, float):
+            try:
+                struct.pack('>f', c.value)
+                return True
+            except OverflowError:
+                return False
+        return lib.f32_fits(c.value.t)
+
+    out.append(Contract(ENC + '.double', [('value', T.any)], cases=[
+        Case('float', when=lambda c: is_float(c.value), returns=f64),
+        Case('not-a-float', when=lambda c: not is_float(c.value), raises=TypeError)],
+        doc='C04: IEEE double (packing itself is assumption A3)'))
+    out.append(Contract(ENC + '.floating_point', [('value', T.any)], cases=[
+        Case('float-in-single-range', when=lambda c: is_float(c.value) and fits_f32(c), returns=f32),
+        Case('float-beyond-single-range', when=lambda c: is_float(c.value) and neg(fits_f32(c)), raises=OverflowError),
+        Case('not-a-float', when=lambda c: not is_float(c.value), raises=TypeError)],
+        doc='C04/C10: IEEE single; values beyond the single range are refused (OverflowError)'))
+
+    is_str = lambda v: isinstance(v, (str, SStr))
+
+    def string_contract(name, width, params, sval):
+        limit = 256 ** width
+
+        def ulen(c):
+            return wire.blen(c.st, wire.str_utf8(c.st, sval(c)))
+
+        def ok(c):
+            if not is_str(sval(c)):
+                return False
+            return conj(wire.str_encodable(c.st, sval(c)), lt(ulen(c), limit))
+
+        def too_long(c):
+            if not is_str(sval(c)):
+                return False
+            return conj(wire.str_encodable(c.st, sval(c)), neg(lt(ulen(c), limit)))
+
+        def unenc(c):
+            if not is_str(sval(c)):
+                return False
+            return neg(wire.str_encodable(c.st, sval(c)))
+
+        def enc(c):
+            u = wire.str_utf8(c.st, sval(c))
+            return wire.cat(c.st, wire.be(c.st, width, wire.blen(c.st, u)), u)
+
+        return Contract(ENC + '.' + name, params, cases=[
+            Case('text', when=ok, returns=enc),
+            Case('too-long-for-the-length-prefix', when=too_long, raises=struct.error),
+            Case('not-encodable-as-utf-8', when=unenc, raises=UnicodeEncodeError),
+            Case('not-a-str', when=lambda c: not is_str(sval(c)), raises=TypeError)],
+            doc='C04/C10: %d-octet length prefix + UTF-8 octets; oversize refused, never truncated' % width)
+
+    # _string(encoder, value): helper contract derived from the code -- the length is packed with
+    # whatever struct the caller passes (format read from the real common.Struct object)
+    def helper_contract():
+        from pamqp import common
+
+        def fmt(c):
+            (code, size, signed), = sym.parse_format(c.encoder.format)
+            hi = 2 ** (8 * size - 1) - 1 if signed else 2 ** (8 * size) - 1
+            return size, signed, hi
+
+        def ulen(c):
+            return wire.blen(c.st, wire.str_utf8(c.st, c.value))
+
+        def ok(c):
+            if not is_str(c.value):
+                return False
+            return conj(wire.str_encodable(c.st, c.value), le(ulen(c), fmt(c)[2]))
+
+        def too_long(c):
+            if not is_str(c.value):
+                return False
+            return conj(wire.str_encodable(c.st, c.value), neg(le(ulen(c), fmt(c)[2])))
+
+        def enc(c):
+            size, signed, hi = fmt(c)
+            u = wire.str_utf8(c.st, c.value)
+            return wire.cat(c.st, (wire.sbe if signed else wire.be)(c.st, size, wire.blen(c.st, u)), u)
+
+        encs = TSpec([('Struct.byte', lambda st, n: common.Struct.byte), ('Struct.integer', lambda st, n: common.Struct.integer)])
+        return Contract(ENC + '._string', [('encoder', encs), ('value', T.any)], cases=[
+            Case('text', when=ok, returns=enc),
+            Case('too-long', when=too_long, raises=struct.error),
+            Case('not-encodable', when=lambda c: is_str(c.value) and neg(wire.str_encodable(c.st, c.value)), raises=UnicodeEncodeError),
+            Case('not-a-str', when=lambda c: not is_str(c.value), raises=TypeError)], bounded=False)
+
+    out.append(helper_contract())
+    out.append(string_contract('short_string', 1, [('value', T.any)], lambda c: c.value))
+    out.append(string_contract('long_string', 4, [('value', T.any)], lambda c: c.value))
+    return out
+
+
+def abstract_encoders():
+    """field_table / field_array / timestamp as used by the per-class and
+    property contracts: opaque specification functions (assumed here; the
+    functions themselves are verified against the grammar separately)."""
+    from pyvc.sym import SOpaque, SInt
+    from pyvc.contract import obj_nonempty
+    out = []
+    leg = lambda c: c.reads['DEPRECATED_RABBITMQ_SUPPORT']
+    RAISES = (TypeError, struct.error, UnicodeEncodeError, OverflowError, ValueError)
+
+    is_dict = lambda v: isinstance(v, dict) or (isinstance(v, SOpaque) and v.kind == 'dict')
+
+    def t_nonempty(c):
+        v = c.value
+        if isinstance(v, dict):
+            return bool(v)
+        return obj_nonempty(v.t)
+
+    def t_ok(c):
+        return wire.table_encodable(c.value.t, B(leg(c)))
+
+    out.append(Contract(ENC + '.field_table', [('value', T.dict | T.none)], cases=[
+        Case('no-table', when=lambda c: c.value is None, returns=lambda c: b'\x00\x00\x00\x00'),
+        Case('empty-table', when=lambda c: is_dict(c.value) and neg(t_nonempty(c)), returns=lambda c: b'\x00\x00\x00\x00'),
+        Case('table', when=lambda c: is_dict(c.value) and conj(t_nonempty(c), t_ok(c)),
+             returns=lambda c: wire.table_bytes(c.st, c.value, leg(c))),
+        Case('table-with-unencodable-content', when=lambda c: is_dict(c.value) and conj(t_nonempty(c), neg(t_ok(c))),
+             raises=RAISES),
+    ], reads=[LEGACY], trusted=True, name=ENC + '.field_table(abstract)',
+        doc='abstract view used by callers: enc_table is an opaque specification function'))
+
+    is_time = lambda v: isinstance(v, SOpaque) and v.kind in ('datetime_naive', 'datetime_aware', 'struct_time')
+    secs = lambda c: SInt(wire.dt_seconds(c.value.t))
+    out.append(Contract(ENC + '.timestamp', [('value', T.dt_naive | T.dt_aware | T.struct_time | T.int | T.str | T.none)], cases=[
+        Case('instant', when=lambda c: is_time(c.value) and in_range(secs(c), 0, 2 ** 64 - 1),
+             returns=lambda c: wire.be(c.st, 8, secs(c))),
+        Case('before-epoch-or-too-late', when=lambda c: is_time(c.value) and neg(in_range(secs(c), 0, 2 ** 64 - 1)),
+             raises=struct.error),
+        Case('not-a-time', when=lambda c: not is_time(c.value), raises=TypeError),
+    ], trusted=True, name=ENC + '.timestamp(abstract)',
+        doc='abstract view: dt_seconds is the whole-second instant with naive values read as UTC (C15 verifies the function)'))
+    return out
+
+
 def register(reg):
+    for c in simple_encoders() + abstract_encoders():
+        reg.add(c)
     reg.add(fixed_int_encoder('octet', 0, 255, 1, False, struct.error))
     reg.add(fixed_int_encoder('short_int', -2 ** 15, 2 ** 15 - 1, 2, True, TypeError))
     reg.add(fixed_int_encoder('short_uint', 0, 2 ** 16 - 1, 2, False, TypeError))
